@@ -15,6 +15,7 @@ import (
 	"strconv"
 	"strings"
 	"sync"
+	"sync/atomic"
 	"time"
 
 	gobinlog "github.com/Breeze0806/gobinlog"
@@ -22,10 +23,22 @@ import (
 
 func jsonUnmarshal(d []byte, v interface{}) error { return json.Unmarshal(d, v) }
 
+// nopLogger discards everything. Its Errorf/Infof can be made slow (logDelay, nanoseconds): a slow log sink is a
+// legitimate timing of the library's goroutines (the reader logs before it publishes its stop reason), used by the
+// C05/C06 schedule classes as a black-box scheduling gate.
 type nopLogger struct{}
 
-func (nopLogger) Errorf(string, ...interface{}) {}
-func (nopLogger) Infof(string, ...interface{})  {}
+var logDelay int64
+var logFastG int64 // goroutine whose log calls are not delayed (the one that called Stream)
+
+func slowLog() {
+	if d := atomic.LoadInt64(&logDelay); d > 0 && int64(goid()) != atomic.LoadInt64(&logFastG) {
+		time.Sleep(time.Duration(d))
+	}
+}
+
+func (nopLogger) Errorf(string, ...interface{}) { slowLog() }
+func (nopLogger) Infof(string, ...interface{})  { slowLog() }
 func (nopLogger) Debugf(string, ...interface{}) {}
 func (nopLogger) Print(...interface{})          {}
 func (nopLogger) Printf(string, ...interface{}) {}
@@ -263,6 +276,8 @@ type AttemptPlan struct {
 	Scribble     bool   // handler overwrites every delivered byte slice after snapshotting
 	Dead         bool   // connect to a dead address (no listener)
 	CancelAfterReturn bool // the caller cancels its context after Stream returned, before calling Error()
+	LogDelayMs        int  // the log sink takes this long per Errorf/Infof call (slow sink: shifts the reader's timing)
+	SkipError         bool // the caller does not call Error() after this attempt (Stream already returned an error)
 }
 
 func defaultAttempt() AttemptPlan {
@@ -272,7 +287,8 @@ func defaultAttempt() AttemptPlan {
 func (a AttemptPlan) J() M {
 	m := M{"pacing": a.Pacing, "end": a.End, "connfault": orNone(a.ConnFault), "handlerErrAt": a.HandlerErrAt,
 		"mapperFault": orNone(a.MapperFault), "cancelAtTx": a.CancelAtTx, "cancelAtPkt": a.CancelAtPkt,
-		"handlerBlock": a.HandlerBlock, "scribble": a.Scribble, "dead": a.Dead, "cancelAfterReturn": a.CancelAfterReturn}
+		"handlerBlock": a.HandlerBlock, "scribble": a.Scribble, "dead": a.Dead, "cancelAfterReturn": a.CancelAfterReturn,
+		"logDelayMs": a.LogDelayMs, "skipError": a.SkipError}
 	if a.Fault != nil {
 		m["fault"] = M{"kind": a.Fault.Kind, "at": a.Fault.At, "code": int(a.Fault.Code), "msg": B(a.Fault.Msg)}
 	} else {
@@ -305,6 +321,11 @@ type StreamScenario struct {
 	Note     string
 	// SetPosBefore: explicit SetBinlogPosition calls made before the given attempt index
 	SetPosBefore map[int]Pos
+	// MapperTables overrides what the table mapper knows (default: every table announced in the log)
+	MapperTables map[string]*Table
+	// RejectAfterP1 > 0: the history re-announces a table with a column count the mapper's table does not have; the
+	// stream must end with an error after exactly this many transactions
+	RejectAfterP1 int // (value + 1; 0 = none)
 }
 
 func cellsJ(cs []Cell, t *Table) []M {
@@ -402,7 +423,7 @@ func (sc *StreamScenario) J(withBytes bool) M {
 	return M{"ev": "scenario", "id": sc.ID, "fam": sc.Fam, "note": sc.Note,
 		"cfg":   M{"cksum": c.Checksum, "rowsv2": c.RowsV2, "tidw": c.TidW, "gtid": c.Gtid, "ntypes": c.NTypes},
 		"start": M{"file": B(sc.Start.File), "off": u32s(sc.Start.Off)}, "serverid": u32s(sc.ServerID),
-		"files": files, "attempts": atts, "resume": sc.Resume}
+		"files": files, "attempts": atts, "resume": sc.Resume, "rejectAfter": sc.RejectAfterP1 - 1}
 }
 
 // ---- running ---------------------------------------------------------------------------------
@@ -416,6 +437,7 @@ type runState struct {
 	// delivered transactions over the whole scenario (for rereads / resume)
 	kept []*gobinlog.Transaction
 	snap []M
+	abandoned bool // a Stream call never returned: the streamer object cannot be used any more
 	// where the harness believes the streamer stands (only used to describe injected faults; set from the scenario start)
 	streamerPosGuess Pos
 }
@@ -609,6 +631,8 @@ func (rs *runState) runAttempt(att int, a AttemptPlan, dsnOverride string) {
 			}
 		}
 	}
+	atomic.StoreInt64(&logDelay, int64(a.LogDelayMs)*int64(time.Millisecond))
+	defer atomic.StoreInt64(&logDelay, 0)
 	rec.Emit(M{"ev": "attempt", "att": att, "plan": a.J(), "nbefore": nbefore})
 	baseG := libraryGoroutines() // goroutines leaked by earlier attempts are not charged to this one
 	t0 := time.Now()
@@ -617,6 +641,7 @@ func (rs *runState) runAttempt(att int, a AttemptPlan, dsnOverride string) {
 	go func() {
 		// The handler must run on the goroutine that called Stream: call Stream here and compare ids.
 		callerG = goid()
+		atomic.StoreInt64(&logFastG, int64(callerG)) // only the library's own goroutines see the slow log sink
 		err = rs.streamer.Stream(ctx, handler)
 		close(done)
 	}()
@@ -661,7 +686,16 @@ func (rs *runState) runAttempt(att int, a AttemptPlan, dsnOverride string) {
 		rec.Emit(M{"ev": "streamReturn", "att": att, "returned": false, "res": errJ(nil), "ms": int(el / time.Millisecond)})
 		release()
 		doCancel("giveup")
-		<-done
+		// Stream is stuck (already recorded). Try to get the goroutine back so that the run can go on: drop the
+		// master's side of the connection; if that does not help either, abandon the call and the scenario.
+		rs.master.CloseConns()
+		select {
+		case <-done:
+		case <-time.After(waitBound):
+			rs.abandoned = true
+			rec.Emit(M{"ev": "abandoned", "att": att})
+			return
+		}
 	} else {
 		cmu.Lock()
 		wasCancelled := !cancelledAt.IsZero()
@@ -676,7 +710,7 @@ func (rs *runState) runAttempt(att int, a AttemptPlan, dsnOverride string) {
 	}
 
 	// Error(): must return, whatever happened.
-	for call := 1; call <= 2; call++ {
+	for call := 1; call <= 2 && !a.SkipError; call++ {
 		ech := make(chan error, 1)
 		go func() { ech <- rs.streamer.Error() }()
 		select {
@@ -712,7 +746,7 @@ func (rs *runState) runAttempt(att int, a AttemptPlan, dsnOverride string) {
 		cmds, sent := connRec.snapshot()
 		for i, c := range cmds {
 			rec.Emit(M{"ev": "cmd", "att": att, "i": i, "kind": c.Kind, "sql": B(c.SQL), "serverid": u32s(c.ServerID),
-				"file": B(c.File), "off": u32s(c.Off), "flags": int(c.Flags)})
+				"file": B(c.File), "off": u32s(c.Off), "flags": int(c.Flags), "ok": c.OK})
 		}
 		rec.Emit(M{"ev": "sock", "att": att, "peerClosed": closed, "masterEnded": masterEnded, "sent": sent,
 			"ms": int(time.Since(tRet) / time.Millisecond)})
@@ -744,6 +778,9 @@ func RunStreamScenario(rec *Recorder, sc *StreamScenario) {
 	defer m.Close()
 	rs := &runState{rec: rec, master: m, sc: sc, streamerPosGuess: sc.Start}
 	rs.mapper = &vfMapper{tables: sc.Log.Tables(), rec: rec}
+	if sc.MapperTables != nil {
+		rs.mapper.tables = sc.MapperTables
+	}
 	rec.Emit(sc.J(false))
 	st, _ := gobinlog.NewStreamer(m.DSN(), sc.ServerID, rs.mapper)
 	st.SetBinlogPosition(gobinlog.Position{Filename: sc.Start.File, Offset: int64(sc.Start.Off)})
@@ -754,6 +791,9 @@ func RunStreamScenario(rec *Recorder, sc *StreamScenario) {
 			rec.Emit(M{"ev": "setpos", "att": i, "pos": M{"file": B(p.File), "off": u32s(p.Off)}})
 		}
 		rs.runAttempt(i, a, "")
+		if rs.abandoned {
+			break
+		}
 	}
 	// re-read every delivered transaction after all stream activity ended (C08)
 	for k, t := range rs.kept {
